@@ -130,7 +130,7 @@ class Budget(Exception):
 
 
 class Engine:
-    def __init__(self, crate, max_depth=8, inline=None, opaque=(), assume=None, models=None,
+    def __init__(self, crate, max_depth=8, inline=None, opaque=(), assume=None, models=None, unroll=0, unroll_pred=None,
                  assume_int=None, step_budget=400000):
         self.crate = crate
         self.max_depth = max_depth
@@ -139,6 +139,10 @@ class Engine:
         self.assume = assume
         self.assume_int = assume_int
         self.models = models or {}
+        self.unroll = unroll        # >0: bodies whose loops have a concrete trip count <= unroll are executed iteration by iteration
+        self.unroll_pred = unroll_pred   # f(body path) -> bool: which bodies may be unrolled (default: all)
+        if unroll:
+            for k, f in ITER_MODELS.items(): self.models.setdefault(k, f)
         self.events = {}
         self.phi_ops = {}
         self.phi_gate = {}          # phi -> (condition term, value if true, value if false)
@@ -182,6 +186,16 @@ class Engine:
         succ_cache = body.succ()
         seen_blocks = set(); revisited = False
         final_ctx = self.nonfinal == 0
+        if self.unroll and body.has_loops() and (self.unroll_pred is None or self.unroll_pred(body.path)):
+            snap = (dict((k, set(v)) for k, v in self.phi_ops.items()), dict(self.phi_gate), dict(self.events), list(self.branches), dict(self._branch_idx))
+            try:
+                ret_val, ret_state = self.run_unrolled(body, fk, stack, st0)
+                r = Result()
+                if ret_state is not None:
+                    r.returns = True; r.ret = ret_val; r.facts = ret_state.facts; r.state = ret_state
+                return r
+            except NoUnroll:
+                self.phi_ops, self.phi_gate, self.events, self.branches, self._branch_idx = snap
         self.nonfinal += 1
         try:
             ret_val, ret_state = self.iterate(body, fk, stack, instates, work)
@@ -193,6 +207,65 @@ class Engine:
         if ret_state is not None:
             r.returns = True; r.ret = ret_val; r.facts = ret_state.facts; r.state = ret_state
         return r
+
+    # ------------------------------------------------------------------------- bounded unrolling
+    def exec_block(self, body, fk, stack, bb, st):
+        blk = body.blocks[bb]
+        self.steps += 1
+        if self.steps > self.step_budget: raise Budget("step budget exceeded in %s" % body.path)
+        for s in blk["stmts"]:
+            self.loc = (body.path, bb, s.get("at"), fk)
+            self.exec_stmt(body, fk, st, s, bb)
+        self.loc = (body.path, bb, blk["term"].get("at"), fk)
+        return self.exec_term(body, fk, st, blk["term"], bb, stack)
+
+    def run_unrolled(self, body, fk, stack, st0):
+        """Execute a body whose loops all have a trip count the abstract state determines (loop
+        condition folds to a constant in every round): each loop is executed round by round, its
+        head state REPLACED by the state carried on the back edge instead of joined with it; inside
+        one round (an acyclic region) blocks run once, in reverse post-order, from the join of their
+        predecessors.  Exact for such loops (no widening, no merge of rounds); raises NoUnroll when a
+        loop does not end within `self.unroll` rounds, and the caller falls back to the fixpoint."""
+        rpo = body.rpo(); succ = body.succ()
+        loops = body.natural_loops()
+        ret = [None, None]
+        def deliver(d, tgt, ost, key):
+            old = d.get(tgt)
+            d[tgt] = ost if old is None else self.join_state(old, ost, key)
+        def region(blocks, entry, st, it):
+            inn = {entry: st}; outs = {}
+            for bb in sorted(blocks, key=lambda b: rpo[b]):
+                if bb not in inn: continue
+                if body.blocks[bb]["cleanup"]: continue
+                if bb != entry and bb in loops:
+                    edges = list(loop(bb, inn[bb]).items())
+                else:
+                    edges = self.exec_block(body, fk, stack, bb, inn[bb].copy())
+                for tgt, ost in edges:
+                    if self.edge_hook is not None and not self.nonfinal and not (bb != entry and bb in loops): self.edge_hook(body, bb, tgt, ost, fk)
+                    if tgt == "return":
+                        rv = ost.store.get((fk, 0), UNDEF)
+                        if ret[1] is None: ret[0], ret[1] = rv, ost
+                        else:
+                            ret[0] = self.join_val(ret[0], rv, ('ret', fk))
+                            ret[1] = self.join_state(ret[1], ost, ('retst', fk))
+                    elif tgt in blocks and tgt != entry and rpo[tgt] > rpo[bb]:
+                        deliver(inn, tgt, ost, (fk, tgt, it))
+                    else:
+                        deliver(outs, tgt, ost, (fk, tgt, 'out', it))
+            return outs
+        def loop(h, st):
+            exits = {}
+            for it in range(self.unroll + 1):
+                outs = region(loops[h], h, st, it)
+                back = outs.pop(h, None)
+                for tgt, ost in outs.items(): deliver(exits, tgt, ost, (fk, tgt, 'exit', h))
+                if back is None: return exits
+                st = back
+            raise NoUnroll(body.path)
+        outs = region(set(rpo), 0, st0, 0)
+        if outs: raise NoUnroll(body.path)          # irreducible flow
+        return ret[0], ret[1]
 
     def iterate(self, body, fk, stack, instates, work):
         ret_val = None; ret_state = None
@@ -1102,6 +1175,90 @@ def subterm(a, b):
         for x in b:
             if isinstance(x, tuple) and subterm(a, x): return True
     return False
+
+
+class NoUnroll(Exception):
+    pass
+
+
+# ------------------------------------------------------------------ iterator models (unroll mode)
+def _opt(v=None):
+    return ('agg', 'adt:std::option::Option', 1, (v,)) if v is not None else ('agg', 'adt:std::option::Option', 0, ())
+
+
+def _array_len(v):
+    if v[0] == 'agg' and v[1] == 'array': return len(v[3])
+    if v[0] == 'cast' and isinstance(v[2], str):
+        import re
+        m = re.fullmatch(r"\[[^;\[\]]+; (\d+)\]", v[2])
+        if m: return int(m.group(1))
+    return None
+
+
+def _m_slice_iter(eng, st, args, site):
+    a = args[0]
+    if a[0] != 'ref': return None
+    arr = eng.read_cur(st, ('local', a[1], a[2], a[3]))
+    n = _array_len(arr)
+    if n is None: return None
+    return ('agg', 'model:slice_iter', 0, (arr, C('usize', 0), C('usize', n)))
+
+
+def _m_enumerate(eng, st, args, site):
+    it = args[0]
+    if it[0] == 'agg' and it[1].startswith('model:'): return ('agg', 'model:enumerate', 0, (it, C('usize', 0)))
+    return None
+
+
+def _m_into_iter(eng, st, args, site):
+    it = args[0]
+    if it[0] == 'agg' and (it[1].startswith('model:') or it[1] == 'adt:std::ops::Range'): return it
+    return None
+
+
+def _iter_step(eng, it):
+    """(item or None, new iterator value) for a modelled iterator with a concrete position; None if not concrete"""
+    if it[0] != 'agg': return None
+    if it[1] == 'model:slice_iter':
+        arr, pos, n = it[3]
+        if pos[0] != 'c' or n[0] != 'c': return None
+        if pos[2] >= n[2]: return (None, it)
+        elem = eng.project(arr, ('i', pos[2]))
+        return (('ref_t', elem), ('agg', it[1], 0, (arr, C('usize', pos[2] + 1), n)))
+    if it[1] == 'model:enumerate':
+        inner, k = it[3]
+        r = _iter_step(eng, inner)
+        if r is None or k[0] != 'c': return None
+        if r[0] is None: return (None, ('agg', it[1], 0, (r[1], k)))
+        return (('agg', 'tuple', 0, (k, r[0])), ('agg', it[1], 0, (r[1], C('usize', k[2] + 1))))
+    if it[1] == 'adt:std::ops::Range':
+        a, b = it[3]
+        if a[0] != 'c' or b[0] != 'c' or a[1] != b[1]: return None
+        if a[2] >= b[2]: return (None, it)
+        return (a, ('agg', it[1], it[2], (C(a[1], a[2] + 1), b)))
+    return None
+
+
+def _m_next(eng, st, args, site):
+    a = args[0]
+    if a[0] != 'ref': return None
+    cur = ('local', a[1], a[2], a[3])
+    it = eng.read_cur(st, cur)
+    r = _iter_step(eng, it)
+    if r is None: return None
+    item, new = r
+    eng.write_cur(st, cur, new, site)
+    return _opt(item)
+
+
+ITER_MODELS = {
+    "core::slice::<impl [T]>::iter": _m_slice_iter,
+    "std::iter::Iterator::enumerate": _m_enumerate,
+    "<I as std::iter::IntoIterator>::into_iter": _m_into_iter,
+    "<std::slice::Iter<'a, T> as std::iter::Iterator>::next": _m_next,
+    "<std::iter::Enumerate<I> as std::iter::Iterator>::next": _m_next,
+    "std::iter::range::<impl std::iter::Iterator for std::ops::Range<A>>::next": _m_next,
+}
 
 
 def walk(t):
